@@ -122,6 +122,14 @@ pub fn generate(rng: &mut Rng, tier: &str, shard: usize, nshards: usize, out: &m
     let thorough = tier == "thorough";
     let mut n = 0usize;
     let mut emit = |line: String, n: &mut usize| { *n += 1; if *n % nshards == shard { out(line); } };
+    // exponents at the ends of the i64 scale range (the scale-limit test must not overflow on them)
+    for body in ["1", "-7.5", "0", "0.25", "123456789012345678901234567890"] {
+        for e in ["9223372036854775806", "9223372036854775807", "9223372036854775808", "9223372036854775809",
+                  "-9223372036854775806", "-9223372036854775807", "-9223372036854775808", "170141183460469231731687303715884105727", "4294967296", "-4294967296"] {
+            let t = format!("{}e{}", body, e);
+            for op in ["de_num", "jsonnum_de", "jsonopt_de", "de_str"] { emit(format!("C17\t{}\t{}", op, hex(t.as_bytes())), &mut n); }
+        }
+    }
     let total = if thorough { 600_000 } else { 50_000 };
     for _ in 0..total {
         // decimals with 1..400 digits and scales -150000..150000 (boundary +-1), zeros with +- scales, all three Display notations
